@@ -4,6 +4,7 @@ CONSTANTS
   Msgs <- MCMsgs
   SessDep <- MCSessDep
   KeyIncludesSession = FALSE
+  KeyByAddress = FALSE
   MaxLen = 3
 INVARIANT HistoryFree
 CHECK_DEADLOCK FALSE
